@@ -27,14 +27,14 @@ var c02Table = map[string]triage{
 	`(*app.ProposalHandler).SetEVMAddresses # index:param3[loopvar]`:                                         {"linked", "evmAddresses is the parallel list of operatorAddresses built in lock-step by CheckInitialSignaturesFromLastCommit (C17 LOCKSTEP)"},
 
 	// ---- bridge EndBlock
-	`(x/bridge/keeper.Keeper).CompareAndSetBridgeValidators # must:iface:github.com/cosmos/cosmos-sdk/codec.BinaryCodec.MustMarshal`: {"library", "MustMarshal of an in-memory proto message (BridgeValidatorSet) cannot fail"},
+	`(x/bridge/keeper.Keeper).CompareAndSetBridgeValidators # must:iface:github.com/cosmos/cosmos-sdk/codec.BinaryCodec.MustMarshal`:   {"library", "MustMarshal of an in-memory proto message (BridgeValidatorSet) cannot fail"},
 	`(x/bridge/keeper.Keeper).CalculateValidatorSetCheckpoint # err-ext:(github.com/ethereum/go-ethereum/accounts/abi.Arguments).Pack`: {"library", "Pack of ([32]byte, *big.Int, *big.Int, [32]byte) against (bytes32,uint256,uint256,bytes32): Go types fixed in the function (C15 ABI)"},
 	`(x/bridge/keeper.Keeper).CalculateValidatorSetCheckpoint # err-ext:github.com/ethereum/go-ethereum/accounts/abi.NewType`:          {"library", "NewType of a constant elementary ABI type string (checked: ABI-CONST-TYPES)"},
-	`(x/bridge/keeper.Keeper).EncodeAndHashValidatorSet # err-ext:(github.com/ethereum/go-ethereum/accounts/abi.Arguments).Pack`:        {"library", "Pack of (common.Address, *big.Int) against (address,uint256)"},
-	`(x/bridge/keeper.Keeper).EncodeAndHashValidatorSet # err-ext:github.com/ethereum/go-ethereum/accounts/abi.NewType`:                 {"library", "constant elementary ABI type string (ABI-CONST-TYPES)"},
-	`(x/bridge/keeper.Keeper).EncodeOracleAttestationData # err-ext:(github.com/ethereum/go-ethereum/accounts/abi.Arguments).Pack`:      {"library", "Pack of fixed Go types against the 9-argument list (C15 ABI)"},
-	`(x/bridge/keeper.Keeper).EncodeOracleAttestationData # err-ext:github.com/ethereum/go-ethereum/accounts/abi.NewType`:               {"library", "constant elementary ABI type string (ABI-CONST-TYPES)"},
-	`(x/bridge/keeper.Keeper).EncodeOracleAttestationData # err-ext:encoding/hex.DecodeString`:                                          {"linked", "the constant domain separator is valid hex; the report value was validated as hex by ValidateValue before it was stored and is parsed here through the same 0x-stripping normaliser (VALUE-NORMALISED)"},
+	`(x/bridge/keeper.Keeper).EncodeAndHashValidatorSet # err-ext:(github.com/ethereum/go-ethereum/accounts/abi.Arguments).Pack`:       {"library", "Pack of (common.Address, *big.Int) against (address,uint256)"},
+	`(x/bridge/keeper.Keeper).EncodeAndHashValidatorSet # err-ext:github.com/ethereum/go-ethereum/accounts/abi.NewType`:                {"library", "constant elementary ABI type string (ABI-CONST-TYPES)"},
+	`(x/bridge/keeper.Keeper).EncodeOracleAttestationData # err-ext:(github.com/ethereum/go-ethereum/accounts/abi.Arguments).Pack`:     {"library", "Pack of fixed Go types against the 9-argument list (C15 ABI)"},
+	`(x/bridge/keeper.Keeper).EncodeOracleAttestationData # err-ext:github.com/ethereum/go-ethereum/accounts/abi.NewType`:              {"library", "constant elementary ABI type string (ABI-CONST-TYPES)"},
+	`(x/bridge/keeper.Keeper).EncodeOracleAttestationData # err-ext:encoding/hex.DecodeString`:                                         {"linked", "the constant domain separator is valid hex; the report value was validated as hex by ValidateValue before it was stored and is parsed here through the same 0x-stripping normaliser (VALUE-NORMALISED)"},
 	`(x/bridge/keeper.Keeper).CreateSnapshot # err-local:errors.New "too many external requests"`:                                      {"linked", "only under isExternalRequest; the block-path call site passes the constant false (SNAPSHOT-INTERNAL)"},
 	`(x/bridge/keeper.Keeper).CreateSnapshot # err-ext:coll:x/bridge/keeper.Keeper.AttestRequestsByHeightMap.Get`:                      {"linked", "read after Has/Set of the same key in the same function (SET-BEFORE-GET)"},
 	`(x/bridge/keeper.Keeper).CreateSnapshot # err-ext:coll:x/bridge/keeper.Keeper.AttestSnapshotsByReportMap.Get`:                     {"linked", "read after Has/Set of the same key in the same function (SET-BEFORE-GET)"},
@@ -44,79 +44,79 @@ var c02Table = map[string]triage{
 	`(x/bridge/keeper.Keeper).GetCurrentValidatorsEVMCompatible # err-ext:iface:x/bridge/types.StakingKeeper.GetAllValidators`:         {"infrastructure", "staking store iteration"},
 	`(x/bridge/keeper.Keeper).GetCurrentValidatorsEVMCompatible # err-local:errors.New "no validators found"`:                          {"DEFECT", "D5: when no validator with a registered EVM address has non-zero consensus power, the bridge end blocker returns this error at every height > 1"},
 	`(x/bridge/keeper.Keeper).GetValidatorSetTimestampBefore # err-local:fmt.Errorf "no validator set timestamp found before %d"`:      {"accepted", "called with the current block time after a checkpoint exists (LastSavedValidatorSetStale runs after BridgeValset.Get succeeded); checkpoint params are written in the same cohort as the saved set"},
-	`(x/bridge/keeper.Keeper).SetBridgeValidatorParams # err-ext:coll:x/bridge/keeper.Keeper.BridgeValsetByTimestampMap.Get`:          {"accepted", "previous set read through IdxMap[idx-1]; written by an earlier execution of this same function (same cohort)"},
-	`(x/bridge/keeper.Keeper).SetBridgeValidatorParams # err-ext:coll:x/bridge/keeper.Keeper.LatestCheckpointIdx.Get`:                 {"accepted", "written by CalculateValidatorSetCheckpoint earlier in this function"},
-	`(x/bridge/keeper.Keeper).SetBridgeValidatorParams # err-ext:coll:x/bridge/keeper.Keeper.ValidatorCheckpointIdxMap.Get`:           {"accepted", "index idx-1 was written by the previous checkpoint (same cohort)"},
+	`(x/bridge/keeper.Keeper).SetBridgeValidatorParams # err-ext:coll:x/bridge/keeper.Keeper.BridgeValsetByTimestampMap.Get`:           {"accepted", "previous set read through IdxMap[idx-1]; written by an earlier execution of this same function (same cohort)"},
+	`(x/bridge/keeper.Keeper).SetBridgeValidatorParams # err-ext:coll:x/bridge/keeper.Keeper.LatestCheckpointIdx.Get`:                  {"accepted", "written by CalculateValidatorSetCheckpoint earlier in this function"},
+	`(x/bridge/keeper.Keeper).SetBridgeValidatorParams # err-ext:coll:x/bridge/keeper.Keeper.ValidatorCheckpointIdxMap.Get`:            {"accepted", "index idx-1 was written by the previous checkpoint (same cohort)"},
 	`(x/oracle/keeper.Keeper).GetAggregateByTimestamp # err-ext:coll:x/oracle/keeper.Keeper.Aggregates.Get`:                            {"accepted", "the timestamp was just obtained from GetTimestampBefore on the same store in CreateNewReportSnapshots"},
 	`(x/oracle/keeper.Keeper).GetAggregatedReportsByHeight # panic:(*cosmossdk.io/collections/indexes.Multi).MatchExact()#1`:           {"infrastructure", "panics only on a store iterator error"},
-	`(x/oracle/keeper.Keeper).GetAggregatedReportsByHeight # panic:cosmossdk.io/collections/indexes.CollectKeyValues()#1`:               {"infrastructure", "panics only on a store iterator error"},
-	`(x/oracle/keeper.Keeper).GetTimestampAfter # panic:(*cosmossdk.io/collections.IndexedMap).Walk()`:                                  {"infrastructure", "panics only on a store iterator error (the walk callback returns no error)"},
-	`(x/oracle/keeper.Keeper).GetTimestampBefore # panic:(*cosmossdk.io/collections.IndexedMap).Walk()`:                                 {"infrastructure", "panics only on a store iterator error (the walk callback returns no error)"},
+	`(x/oracle/keeper.Keeper).GetAggregatedReportsByHeight # panic:cosmossdk.io/collections/indexes.CollectKeyValues()#1`:              {"infrastructure", "panics only on a store iterator error"},
+	`(x/oracle/keeper.Keeper).GetTimestampAfter # panic:(*cosmossdk.io/collections.IndexedMap).Walk()`:                                 {"infrastructure", "panics only on a store iterator error (the walk callback returns no error)"},
+	`(x/oracle/keeper.Keeper).GetTimestampBefore # panic:(*cosmossdk.io/collections.IndexedMap).Walk()`:                                {"infrastructure", "panics only on a store iterator error (the walk callback returns no error)"},
 
 	// ---- dispute BeginBlock
-	`x/dispute.CheckClosedDisputesForExecution # err-ext:coll:x/dispute/keeper.Keeper.Disputes.Get`: {"accepted", "key just read from the Disputes map's own PendingExecution index"},
-	`x/dispute.CheckOpenDisputesForExpiration # err-ext:coll:x/dispute/keeper.Keeper.Disputes.Get`:  {"accepted", "key just read from the Disputes map's own OpenDisputes index"},
-	`x/dispute.CheckOpenDisputesForExpiration # err-ext:coll:x/dispute/keeper.Keeper.Votes.Get`:     {"linked", "a dispute is stored with status Voting only on paths that also call SetStartVote (VOTING-HAS-VOTE)"},
-	`(x/dispute/keeper.Keeper).ExecuteVote # err-ext:coll:x/dispute/keeper.Keeper.Disputes.Get`:     {"accepted", "id comes from the Disputes index"},
-	`(x/dispute/keeper.Keeper).ExecuteVote # err-ext:coll:x/dispute/keeper.Keeper.Votes.Get`:        {"linked", "PendingExecution is set only by TallyVote, which reads the vote first (PENDING-IMPLIES-TALLIED)"},
-	`(x/dispute/keeper.Keeper).ExecuteVote # err-ext:iface:x/dispute/types.BankKeeper.BurnCoins`:    {"accepted", "burns at most BurnAmount, which was paid into the dispute escrow (C13 conservation; numeric, not decided)"},
-	`(x/dispute/keeper.Keeper).ExecuteVote # err-local:errors.New "can't execute, dispute not resolved"`: {"linked", "reached from the hook only under BlockTime > DisputeEndTime or status Resolved; with a tallied vote the first branch then sets Resolved (PENDING-IMPLIES-TALLIED)"},
-	`(x/dispute/keeper.Keeper).ExecuteVote # err-local:errors.New "vote already executed"`:          {"linked", "every success path of ExecuteVote stores PendingExecution=false, and a superseded round is closed with PendingExecution=false (EXECUTE-CLEARS-PENDING, CLOSE-CLEARS-PENDING)"},
-	`(x/dispute/keeper.Keeper).ExecuteVote # err-local:errors.New "vote hasn't been tallied yet"`:    {"linked", "PENDING-IMPLIES-TALLIED"},
-	`(x/dispute/keeper.Keeper).GetSumOfAllGroupVotesAllRounds # err-ext:coll:x/dispute/keeper.Keeper.Disputes.Get`: {"accepted", "same id as read by the caller"},
-	`(x/dispute/keeper.Keeper).GetTeamAddress # err-ext:coll:x/dispute/keeper.Keeper.Params.Get`:     {"accepted", "Params written in InitGenesis (GENESIS-WRITES)"},
-	`(x/dispute/keeper.Keeper).ReturnSlashedTokens # err-ext:iface:x/dispute/types.BankKeeper.SendCoinsFromModuleToModule`: {"accepted", "escrow covers the slashed amount (C04/C13 numeric; not decided)"},
-	`(x/dispute/keeper.Keeper).TallyVote # err-ext:coll:x/dispute/keeper.Keeper.BlockInfo.Get`:       {"linked", "BlockInfo is written on every success path of SetNewDispute and removed only by ExecuteVote (BLOCKINFO-LIFETIME); a superseded round leaves the pending-execution index (CLOSE-CLEARS-PENDING)"},
-	`(x/dispute/keeper.Keeper).TallyVote # err-ext:coll:x/dispute/keeper.Keeper.Disputes.Get`:        {"accepted", "id comes from the Disputes index"},
-	`(x/dispute/keeper.Keeper).TallyVote # err-ext:coll:x/dispute/keeper.Keeper.Voter.Get`:           {"linked", "read under Voter.Has of the same key (HAS-BEFORE-GET)"},
-	`(x/dispute/keeper.Keeper).TallyVote # err-ext:coll:x/dispute/keeper.Keeper.Votes.Get`:           {"linked", "VOTING-HAS-VOTE"},
-	`(x/dispute/keeper.Keeper).TallyVote # err-local:errors.New (cosmossdk.io/errors.Error).Error()`: {"linked", "the hook calls TallyVote only under VoteEnd < BlockTime, the complement of this branch (TALLY-CALLSITE)"},
-	`(x/dispute/keeper.Keeper).TallyVote # err-local:errors.New "vote already tallied"`:              {"linked", "the hook calls TallyVote only under VoteResult == NO_TALLY (TALLY-CALLSITE)"},
-	`(x/reporter/keeper.Keeper).GetBondedValidators # err-ext:iface:x/reporter/types.StakingKeeper.ValidatorsPowerStoreIterator`: {"infrastructure", "staking store iterator"},
-	`(x/reporter/keeper.Keeper).GetBondedValidators # err-local:fmt.Errorf "validator record not found for address: %X"`:          {"accepted", "staking power index is consistent with the validator records (x/staking invariant)"},
+	`x/dispute.CheckClosedDisputesForExecution # err-ext:coll:x/dispute/keeper.Keeper.Disputes.Get`:                                 {"accepted", "key just read from the Disputes map's own PendingExecution index"},
+	`x/dispute.CheckOpenDisputesForExpiration # err-ext:coll:x/dispute/keeper.Keeper.Disputes.Get`:                                  {"accepted", "key just read from the Disputes map's own OpenDisputes index"},
+	`x/dispute.CheckOpenDisputesForExpiration # err-ext:coll:x/dispute/keeper.Keeper.Votes.Get`:                                     {"linked", "a dispute is stored with status Voting only on paths that also call SetStartVote (VOTING-HAS-VOTE)"},
+	`(x/dispute/keeper.Keeper).ExecuteVote # err-ext:coll:x/dispute/keeper.Keeper.Disputes.Get`:                                     {"accepted", "id comes from the Disputes index"},
+	`(x/dispute/keeper.Keeper).ExecuteVote # err-ext:coll:x/dispute/keeper.Keeper.Votes.Get`:                                        {"linked", "PendingExecution is set only by TallyVote, which reads the vote first (PENDING-IMPLIES-TALLIED)"},
+	`(x/dispute/keeper.Keeper).ExecuteVote # err-ext:iface:x/dispute/types.BankKeeper.BurnCoins`:                                    {"accepted", "burns at most BurnAmount, which was paid into the dispute escrow (C13 conservation; numeric, not decided)"},
+	`(x/dispute/keeper.Keeper).ExecuteVote # err-local:errors.New "can't execute, dispute not resolved"`:                            {"linked", "reached from the hook only under BlockTime > DisputeEndTime or status Resolved; with a tallied vote the first branch then sets Resolved (PENDING-IMPLIES-TALLIED)"},
+	`(x/dispute/keeper.Keeper).ExecuteVote # err-local:errors.New "vote already executed"`:                                          {"linked", "every success path of ExecuteVote stores PendingExecution=false, and a superseded round is closed with PendingExecution=false (EXECUTE-CLEARS-PENDING, CLOSE-CLEARS-PENDING)"},
+	`(x/dispute/keeper.Keeper).ExecuteVote # err-local:errors.New "vote hasn't been tallied yet"`:                                   {"linked", "PENDING-IMPLIES-TALLIED"},
+	`(x/dispute/keeper.Keeper).GetSumOfAllGroupVotesAllRounds # err-ext:coll:x/dispute/keeper.Keeper.Disputes.Get`:                  {"accepted", "same id as read by the caller"},
+	`(x/dispute/keeper.Keeper).GetTeamAddress # err-ext:coll:x/dispute/keeper.Keeper.Params.Get`:                                    {"accepted", "Params written in InitGenesis (GENESIS-WRITES)"},
+	`(x/dispute/keeper.Keeper).ReturnSlashedTokens # err-ext:iface:x/dispute/types.BankKeeper.SendCoinsFromModuleToModule`:          {"accepted", "escrow covers the slashed amount (C04/C13 numeric; not decided)"},
+	`(x/dispute/keeper.Keeper).TallyVote # err-ext:coll:x/dispute/keeper.Keeper.BlockInfo.Get`:                                      {"linked", "BlockInfo is written on every success path of SetNewDispute and removed only by ExecuteVote (BLOCKINFO-LIFETIME); a superseded round leaves the pending-execution index (CLOSE-CLEARS-PENDING)"},
+	`(x/dispute/keeper.Keeper).TallyVote # err-ext:coll:x/dispute/keeper.Keeper.Disputes.Get`:                                       {"accepted", "id comes from the Disputes index"},
+	`(x/dispute/keeper.Keeper).TallyVote # err-ext:coll:x/dispute/keeper.Keeper.Voter.Get`:                                          {"linked", "read under Voter.Has of the same key (HAS-BEFORE-GET)"},
+	`(x/dispute/keeper.Keeper).TallyVote # err-ext:coll:x/dispute/keeper.Keeper.Votes.Get`:                                          {"linked", "VOTING-HAS-VOTE"},
+	`(x/dispute/keeper.Keeper).TallyVote # err-local:errors.New (cosmossdk.io/errors.Error).Error()`:                                {"linked", "the hook calls TallyVote only under VoteEnd < BlockTime, the complement of this branch (TALLY-CALLSITE)"},
+	`(x/dispute/keeper.Keeper).TallyVote # err-local:errors.New "vote already tallied"`:                                             {"linked", "the hook calls TallyVote only under VoteResult == NO_TALLY (TALLY-CALLSITE)"},
+	`(x/reporter/keeper.Keeper).GetBondedValidators # err-ext:iface:x/reporter/types.StakingKeeper.ValidatorsPowerStoreIterator`:    {"infrastructure", "staking store iterator"},
+	`(x/reporter/keeper.Keeper).GetBondedValidators # err-local:fmt.Errorf "validator record not found for address: %X"`:            {"accepted", "staking power index is consistent with the validator records (x/staking invariant)"},
 	`(x/reporter/keeper.Keeper).GetBondedValidators # index:make(github.com/cosmos/cosmos-sdk/x/staking/types.Validator)[:loopvar]`: {"linked", "i counts appended elements and the loop runs under i < max with len == max (BONDED-LOOP-BOUND)"},
 	`(x/reporter/keeper.Keeper).GetBondedValidators # index:make(github.com/cosmos/cosmos-sdk/x/staking/types.Validator)[loopvar]`:  {"linked", "BONDED-LOOP-BOUND"},
-	`(x/reporter/keeper.Keeper).ReturnSlashedTokens # div:Quo by x/reporter/types.DelegationsAmounts.Total`:                       {"accepted", "Total is the slash amount escrowed, non-zero for a power >= 1 report (C11)"},
-	`(x/reporter/keeper.Keeper).ReturnSlashedTokens # err-ext:coll:x/reporter/keeper.Keeper.DisputedDelegationAmounts.Get`:        {"accepted", "written by EscrowReporterStake, which precedes status Voting on every path (C11 ONCE-SLASH)"},
-	`(x/reporter/keeper.Keeper).ReturnSlashedTokens # err-ext:iface:x/reporter/types.StakingKeeper.Delegate`:                       {"accepted", "x/staking Delegate with tokens already in the pool; arithmetic reachability not decided (residual risk)"},
-	`(x/reporter/keeper.Keeper).ReturnSlashedTokens # err-ext:iface:x/reporter/types.StakingKeeper.GetValidator`:                   {"linked", "only ErrNoValidatorFound is tolerated (falls back to a bonded validator); other errors are store faults"},
+	`(x/reporter/keeper.Keeper).ReturnSlashedTokens # div:Quo by x/reporter/types.DelegationsAmounts.Total`:                         {"accepted", "Total is the slash amount escrowed, non-zero for a power >= 1 report (C11)"},
+	`(x/reporter/keeper.Keeper).ReturnSlashedTokens # err-ext:coll:x/reporter/keeper.Keeper.DisputedDelegationAmounts.Get`:          {"accepted", "written by EscrowReporterStake, which precedes status Voting on every path (C11 ONCE-SLASH)"},
+	`(x/reporter/keeper.Keeper).ReturnSlashedTokens # err-ext:iface:x/reporter/types.StakingKeeper.Delegate`:                        {"accepted", "x/staking Delegate with tokens already in the pool; arithmetic reachability not decided (residual risk)"},
+	`(x/reporter/keeper.Keeper).ReturnSlashedTokens # err-ext:iface:x/reporter/types.StakingKeeper.GetValidator`:                    {"linked", "only ErrNoValidatorFound is tolerated (falls back to a bonded validator); other errors are store faults"},
 	`(x/reporter/keeper.Keeper).ReturnSlashedTokens # err-local:errors.New "no validators found in staking module to return "`:      {"accepted", "x/staking keeps at least one bonded validator"},
 
 	// ---- mint BeginBlock
-	`x/mint.BeginBlocker # err-ext:coll:x/mint/keeper.Keeper.Minter.Get`:          {"accepted", "Minter written in InitGenesis (GENESIS-WRITES)"},
-	`x/mint.SetPreviousBlockTime # err-ext:coll:x/mint/keeper.Keeper.Minter.Get`:  {"accepted", "Minter written in InitGenesis (GENESIS-WRITES)"},
-	`(x/mint/keeper.Keeper).MintCoins # err-ext:iface:x/mint/types.BankKeeper.MintCoins`:                       {"accepted", "module account has Minter permission (C03 MACC-PERM)"},
-	`(x/mint/keeper.Keeper).SendInflationaryRewards # err-ext:iface:x/mint/types.BankKeeper.InputOutputCoins`: {"accepted", "input = sum of outputs = amount just minted (C03 LIN-SPLIT)"},
+	`x/mint.BeginBlocker # err-ext:coll:x/mint/keeper.Keeper.Minter.Get`:                                                      {"accepted", "Minter written in InitGenesis (GENESIS-WRITES)"},
+	`x/mint.SetPreviousBlockTime # err-ext:coll:x/mint/keeper.Keeper.Minter.Get`:                                              {"accepted", "Minter written in InitGenesis (GENESIS-WRITES)"},
+	`(x/mint/keeper.Keeper).MintCoins # err-ext:iface:x/mint/types.BankKeeper.MintCoins`:                                      {"accepted", "module account has Minter permission (C03 MACC-PERM)"},
+	`(x/mint/keeper.Keeper).SendInflationaryRewards # err-ext:iface:x/mint/types.BankKeeper.InputOutputCoins`:                 {"accepted", "input = sum of outputs = amount just minted (C03 LIN-SPLIT)"},
 	`(x/mint/types.Minter).CalculateBlockProvision # err-local:fmt.Errorf "current time %v cannot be before previous time %"`: {"accepted", "assumption: consensus block time is monotone"},
 
 	// ---- oracle EndBlock
-	`(x/oracle/keeper.Keeper).AllocateRewards # err-ext:github.com/cosmos/cosmos-sdk/types.AccAddressFromBech32`:             {"linked", "the address string is AggregateReporter.Reporter, produced by AccAddress.String() in SetValue (REPORTER-BECH32)"},
-	`(x/oracle/keeper.Keeper).AllocateRewards # err-ext:iface:x/oracle/types.BankKeeper.SendCoinsFromModuleToModule`:        {"accepted", "moves query.Amount, which the oracle account received when tipped (C04 LIN-LEDGER-PAIR; numeric, not decided)"},
-	`(x/oracle/keeper.Keeper).CurrentQuery # err-local:sentinel cosmossdk.io/collections.ErrNotFound`:                        {"linked", "RotateQueries tolerates not-found (errors.Is) before propagating (ROTATE-TOLERATES-NOTFOUND)"},
-	`(x/oracle/keeper.Keeper).GetCurrentQueryInCycleList # err-local:errors.New "cycle list is empty"`:                       {"linked", "the cycle list is non-empty: genesis writes it and UpdateCyclelist rejects an empty list before Clear (CYCLELIST-NONEMPTY)"},
-	`(x/oracle/keeper.Keeper).RotateQueries # index:(x/oracle/keeper.Keeper).GetCyclelist()#0[loopvar]`:                       {"linked", "n is 0 or n+1 with n < len-1, and the list is non-empty because GetCurrentQueryInCycleList succeeded earlier on every path (ROTATE-INDEX)"},
-	`(x/oracle/keeper.Keeper).SetAggregate # err-ext:coll:x/oracle/keeper.Keeper.Nonces.Get {not-found tolerated}`:            {"infrastructure", "not-found is tolerated (first aggregate of a query); other errors are store faults"},
-	`(x/oracle/keeper.Keeper).SetAggregatedReport # err-ext:coll:x/oracle/keeper.Keeper.Query.Get`:                            {"accepted", "key just read from the Query map's own HasReveals index"},
-	`(x/oracle/keeper.Keeper).SetAggregatedReport # index:cosmossdk.io/collections/indexes.CollectValues()#0[0]`:              {"linked", "HasRevealedReports is stored true only by SetValue, whose success path also stores a report under the same (queryId, meta id) (REVEALED-HAS-REPORT)"},
-	`(x/oracle/keeper.Keeper).WeightedMedian # err-local:errors.New "failed to parse value"`:                                  {"linked", "the stored value passed ValidateValue (hex after 0x-stripping) and is parsed through the same normaliser (VALUE-NORMALISED)"},
-	`(x/oracle/keeper.Keeper).WeightedMode # err-local:sentinel x/oracle/types.ErrNoReportsToAggregate`:                        {"linked", "REVEALED-HAS-REPORT: the report list of an aggregated round is non-empty"},
-	`(x/registry/keeper.Keeper).GetSpec # err-ext:coll:x/registry/keeper.Keeper.SpecRegistry.Get`:                             {"linked", "cycle-list entries are validated to have a registered spec by UpdateCyclelist; specs are never removed (CYCLELIST-VALIDATED, SPEC-NO-REMOVE)"},
-	`x/registry/types.DecodeQueryType # err-ext:(github.com/ethereum/go-ethereum/accounts/abi.Arguments).Unpack`:               {"linked", "cycle-list entries are decoded by UpdateCyclelist before being stored (CYCLELIST-VALIDATED)"},
-	`x/registry/types.DecodeQueryType # err-ext:github.com/ethereum/go-ethereum/accounts/abi.NewType`:                          {"library", "constant elementary ABI type string (ABI-CONST-TYPES)"},
-	`x/registry/types.DecodeQueryType # index:(github.com/ethereum/go-ethereum/accounts/abi.Arguments).Unpack()#0[0]`:          {"library", "Unpack of a 2-argument list returned without error yields 2 values"},
-	`x/registry/types.DecodeQueryType # index:(github.com/ethereum/go-ethereum/accounts/abi.Arguments).Unpack()#0[1]`:          {"library", "as above"},
+	`(x/oracle/keeper.Keeper).AllocateRewards # err-ext:github.com/cosmos/cosmos-sdk/types.AccAddressFromBech32`:                 {"linked", "the address string is AggregateReporter.Reporter, produced by AccAddress.String() in SetValue (REPORTER-BECH32)"},
+	`(x/oracle/keeper.Keeper).AllocateRewards # err-ext:iface:x/oracle/types.BankKeeper.SendCoinsFromModuleToModule`:             {"accepted", "moves query.Amount, which the oracle account received when tipped (C04 LIN-LEDGER-PAIR; numeric, not decided)"},
+	`(x/oracle/keeper.Keeper).CurrentQuery # err-local:sentinel cosmossdk.io/collections.ErrNotFound`:                            {"linked", "RotateQueries tolerates not-found (errors.Is) before propagating (ROTATE-TOLERATES-NOTFOUND)"},
+	`(x/oracle/keeper.Keeper).GetCurrentQueryInCycleList # err-local:errors.New "cycle list is empty"`:                           {"linked", "the cycle list is non-empty: genesis writes it and UpdateCyclelist rejects an empty list before Clear (CYCLELIST-NONEMPTY)"},
+	`(x/oracle/keeper.Keeper).RotateQueries # index:(x/oracle/keeper.Keeper).GetCyclelist()#0[loopvar]`:                          {"linked", "n is 0 or n+1 with n < len-1, and the list is non-empty because GetCurrentQueryInCycleList succeeded earlier on every path (ROTATE-INDEX)"},
+	`(x/oracle/keeper.Keeper).SetAggregate # err-ext:coll:x/oracle/keeper.Keeper.Nonces.Get {not-found tolerated}`:               {"infrastructure", "not-found is tolerated (first aggregate of a query); other errors are store faults"},
+	`(x/oracle/keeper.Keeper).SetAggregatedReport # err-ext:coll:x/oracle/keeper.Keeper.Query.Get`:                               {"accepted", "key just read from the Query map's own HasReveals index"},
+	`(x/oracle/keeper.Keeper).SetAggregatedReport # index:cosmossdk.io/collections/indexes.CollectValues()#0[0]`:                 {"linked", "HasRevealedReports is stored true only by SetValue, whose success path also stores a report under the same (queryId, meta id) (REVEALED-HAS-REPORT)"},
+	`(x/oracle/keeper.Keeper).WeightedMedian # err-local:errors.New "failed to parse value"`:                                     {"linked", "the stored value passed ValidateValue (hex after 0x-stripping) and is parsed through the same normaliser (VALUE-NORMALISED)"},
+	`(x/oracle/keeper.Keeper).WeightedMode # err-local:sentinel x/oracle/types.ErrNoReportsToAggregate`:                          {"linked", "REVEALED-HAS-REPORT: the report list of an aggregated round is non-empty"},
+	`(x/registry/keeper.Keeper).GetSpec # err-ext:coll:x/registry/keeper.Keeper.SpecRegistry.Get`:                                {"linked", "cycle-list entries are validated to have a registered spec by UpdateCyclelist; specs are never removed (CYCLELIST-VALIDATED, SPEC-NO-REMOVE)"},
+	`x/registry/types.DecodeQueryType # err-ext:(github.com/ethereum/go-ethereum/accounts/abi.Arguments).Unpack`:                 {"linked", "cycle-list entries are decoded by UpdateCyclelist before being stored (CYCLELIST-VALIDATED)"},
+	`x/registry/types.DecodeQueryType # err-ext:github.com/ethereum/go-ethereum/accounts/abi.NewType`:                            {"library", "constant elementary ABI type string (ABI-CONST-TYPES)"},
+	`x/registry/types.DecodeQueryType # index:(github.com/ethereum/go-ethereum/accounts/abi.Arguments).Unpack()#0[0]`:            {"library", "Unpack of a 2-argument list returned without error yields 2 values"},
+	`x/registry/types.DecodeQueryType # index:(github.com/ethereum/go-ethereum/accounts/abi.Arguments).Unpack()#0[1]`:            {"library", "as above"},
 	`x/registry/types.DecodeQueryType # assert:string <- (github.com/ethereum/go-ethereum/accounts/abi.Arguments).Unpack()#0[0]`: {"library", "argument 0 of the list is of ABI type string"},
 	`x/registry/types.DecodeQueryType # assert:byte <- (github.com/ethereum/go-ethereum/accounts/abi.Arguments).Unpack()#0[1]`:   {"library", "argument 1 of the list is of ABI type bytes"},
-	`utils.Remove0xPrefix # index:param0[:2]`: {"linked", "under has0xPrefix, which tests len >= 2 (PREFIX-LEN)"},
-	`(x/reporter/keeper.Keeper).DivvyingTips # div:Quo by x/reporter/types.DelegationsAmounts.Total`:                          {"accepted", "snapshot total >= minimum stake: ReporterStake stores the snapshot and SubmitValue rejects stake < MinStakeAmount (C07 ADMIT, C10)"},
-	`(x/reporter/keeper.Keeper).DivvyingTips # err-ext:coll:x/reporter/keeper.Keeper.Report.Get`:                              {"accepted", "snapshot written by ReporterStake, which dominates SetValue, under the same (queryId, reporter, height) (C07 ADMIT)"},
-	`(x/reporter/keeper.Keeper).DivvyingTips # err-ext:coll:x/reporter/keeper.Keeper.Reporters.Get`:                           {"linked", "reporters are never removed (REPORTERS-NO-REMOVE)"},
-	`(x/reporter/keeper.Keeper).DivvyingTips # err-ext:coll:x/reporter/keeper.Keeper.SelectorTips.Get {not-found tolerated}`:  {"infrastructure", "not-found is tolerated (first tip of a selector)"},
-	`x/oracle/keeper.CalculateRewardAmount # div:Quo by param2`:                                                               {"accepted", "totalPower sums the powers of the listed reporters; a stored report has power >= 1 (C07 ADMIT min stake / PowerReduction)"},
+	`utils.Remove0xPrefix # index:param0[:2]`:                                                                                {"linked", "under has0xPrefix, which tests len >= 2 (PREFIX-LEN)"},
+	`(x/reporter/keeper.Keeper).DivvyingTips # div:Quo by x/reporter/types.DelegationsAmounts.Total`:                         {"accepted", "snapshot total >= minimum stake: ReporterStake stores the snapshot and SubmitValue rejects stake < MinStakeAmount (C07 ADMIT, C10)"},
+	`(x/reporter/keeper.Keeper).DivvyingTips # err-ext:coll:x/reporter/keeper.Keeper.Report.Get`:                             {"accepted", "snapshot written by ReporterStake, which dominates SetValue, under the same (queryId, reporter, height) (C07 ADMIT)"},
+	`(x/reporter/keeper.Keeper).DivvyingTips # err-ext:coll:x/reporter/keeper.Keeper.Reporters.Get`:                          {"linked", "reporters are never removed (REPORTERS-NO-REMOVE)"},
+	`(x/reporter/keeper.Keeper).DivvyingTips # err-ext:coll:x/reporter/keeper.Keeper.SelectorTips.Get {not-found tolerated}`: {"infrastructure", "not-found is tolerated (first tip of a selector)"},
+	`x/oracle/keeper.CalculateRewardAmount # div:Quo by param2`:                                                              {"accepted", "totalPower sums the powers of the listed reporters; a stored report has power >= 1 (C07 ADMIT min stake / PowerReduction)"},
 
 	// ---- reporter EndBlock
-	`(x/reporter/keeper.Keeper).TrackStakeChange # err-ext:coll:x/reporter/keeper.Keeper.Tracker.Get`:                          {"accepted", "Tracker written in InitGenesis (GENESIS-WRITES)"},
-	`(x/reporter/keeper.Keeper).TrackStakeChange # err-ext:iface:x/reporter/types.StakingKeeper.TotalBondedTokens`:             {"infrastructure", "bank balance read of the bonded pool"},
+	`(x/reporter/keeper.Keeper).TrackStakeChange # err-ext:coll:x/reporter/keeper.Keeper.Tracker.Get`:              {"accepted", "Tracker written in InitGenesis (GENESIS-WRITES)"},
+	`(x/reporter/keeper.Keeper).TrackStakeChange # err-ext:iface:x/reporter/types.StakingKeeper.TotalBondedTokens`: {"infrastructure", "bank balance read of the bonded pool"},
 }
 
 // ---------------------------------------------------------------------------
